@@ -112,6 +112,12 @@ func runC08(p *Plan, keep bool) *Outcome {
 		var hist []string
 		doOp := func(op c08Op) {
 			simrt.Yield("task:c08")
+			if op.Kind == "ctx" {
+				// a user of the region (its establisher) asks for its context, not
+				// synchronised with whoever is changing the cache
+				_ = infos[op.Reg].Context()
+				return
+			}
 			hmu.Lock()
 			defer hmu.Unlock()
 			nops++
@@ -193,8 +199,10 @@ func runC08(p *Plan, keep bool) *Outcome {
 				}
 				return
 			}
-			// contents, order and dead marks
-			snap := cache.Snapshot()
+			// contents, order and dead marks (the regions' contexts are not asked
+			// for here: whether a region that is evicted before or while its first
+			// user asks for its context ends up dead is part of what is checked)
+			snap := cache.SnapshotLight()
 			var names []string
 			for _, s := range snap {
 				names = append(names, s.Name)
@@ -218,8 +226,18 @@ func runC08(p *Plan, keep bool) *Outcome {
 				if i > 0 && cmpTuple(snap[i-1], snap[i]) >= 0 {
 					add("tree-order", "after %v: %q is ordered before %q", hist, snap[i-1].Name, snap[i].Name)
 				}
-				if snap[i].Dead {
-					add("dead-cached", "after %v: cached region %q is marked dead", hist, snap[i].Name)
+			}
+			for i := range pool {
+				if model.dead[i] && infos[i].Context().Err() == nil {
+					add("dead-mark", "after %v: region %q was evicted or deleted and is not marked dead", hist, pool[i].name())
+				}
+			}
+		}
+		// at the end: nothing that is cached, and nothing the model has alive, is dead
+		finalCheck := func() {
+			for _, sn := range cache.Snapshot() {
+				if sn.Dead {
+					add("dead-cached", "after %v: cached region %q is marked dead", hist, sn.Name)
 				}
 			}
 			for i := range pool {
@@ -234,7 +252,9 @@ func runC08(p *Plan, keep bool) *Outcome {
 			n := g.R.Range(1, 60/nt+1)
 			var ops []c08Op
 			for i := 0; i < n; i++ {
-				switch x := g.R.Intn(10); {
+				switch x := g.R.Intn(12); {
+				case x >= 10:
+					ops = append(ops, c08Op{Kind: "ctx", Reg: g.R.Intn(len(pool))})
 				case x < 6:
 					ops = append(ops, c08Op{Kind: "put", Reg: g.R.Intn(len(pool))})
 				case x < 8:
@@ -252,6 +272,9 @@ func runC08(p *Plan, keep bool) *Outcome {
 			})
 		}
 		out.Reason = e.Loop(func() bool { return done == nt })
+		if done == nt {
+			finalCheck()
+		}
 		out.Nontrivial = evictions+rejections > 0
 		out.Extra["operations"] = nops
 		out.Extra["evictions"] = evictions
